@@ -180,6 +180,8 @@ def _evaluate_require(ast, file_path, package_lua, lua_path=None):
                 dropped = set()
                 for s in reqd_lua.root.stats:
                     if (isinstance(s, parser.StatFunction) and
+                            len(s.funcname.namepath) == 1 and
+                            s.funcname.methodname is None and
                             s.funcname.namepath[0].value in GAME_LOOP_FUNCTION_NAMES):  # noqa: E501
                         dropped.update(range(s.start_pos, s.end_pos))
                 if dropped:
